@@ -19,6 +19,10 @@ def shLegs (l : List Leg) : String :=
 def cmdSize (toks : Toks) : Option String :=
   match toks with
   | ["SZSHARES", k, lot, amount, cur] => some (shSide (orderShares ⟨pB k, pI lot⟩ (pF amount) (pI cur)))
+  | ["SZSHARESAUTO", k, lot, amount, cur, closable, price, cash, rate, mult, minC] =>
+      let cfg : StockCostCfg := { rate := pF rate, mult := pF mult, minC := pF minC, taxRate := 0.0, taxMult := 0.0 }
+      let cost : Int → Float := fun a => stockOrderCost cfg true false (pF price) (Float.ofInt a)
+      some (shSide (orderSharesAuto ⟨pB k, pI lot⟩ (pF amount) (pI cur) (pI closable) (pF price) (pF cash) cost))
   | ["SZLOTS", k, lot, lots, cur] => some (shSide (orderLots ⟨pB k, pI lot⟩ (pF lots) (pI cur)))
   | ["SZORDERTO", k, lot, q, cur] => some (shSide (stockOrderTo ⟨pB k, pI lot⟩ (pF q) (pI cur)))
   | ["SZVALUE", k, lot, v, price, cash, closable, posQty, rate, mult, minC] =>
